@@ -2994,3 +2994,9 @@ mod tests {
 		swap_htlcs!(small_htlc, big_htlc);
 	}
 }
+
+// verification hook (DESIGN.md of /verif): harnesses live outside the repository and are compiled only under cfg(kani) / cfg(ldk_verif)
+#[cfg(any(kani, ldk_verif))]
+#[allow(missing_docs, dead_code, unused_imports, unused_variables)]
+#[path = "/verif/hooks/chan_utils.rs"]
+pub mod verif_contracts;
